@@ -396,4 +396,15 @@ theorem cons_kw_nonascii_symbol_witness :
     SV.Fields.parsePipeFields [⟨"fields".toList, false, true, true⟩, ⟨[Char.ofNat 0x20AC], false, true, false⟩]
       = none := by decide
 
+/-- the oracle bit matters: fed a WRONG answer for `€` (`letter := true`, i.e. not Go's `unicode.IsLetter || IsDigit`, and not
+what `kwTokOfLTok` derives from C12's rune record) C20 accepts the name while C12 / Go reject - agreement of the two models is
+agreement of their unicode oracles, which the harnesses both take from Go -/
+theorem cons_kw_nonascii_wrong_oracle_witness :
+    let eur : Rn := ⟨[0xE2, 0x82, 0xAC], 0x20AC, false, false, false, 0x20AC, false⟩
+    let fl : LTok := ⟨[⟨[102], 102, true, false, false, 102, false⟩], false, true, .fields⟩
+    pipeFields [fl, ⟨[eur], false, true, .none⟩] = .err ∧
+    (kwTokOfLTok ⟨[eur], false, true, .none⟩).letter = false ∧
+    SV.Fields.parsePipeFields [⟨"fields".toList, false, true, true⟩, ⟨[Char.ofNat 0x20AC], false, true, true⟩]
+      = some (false, [[Char.ofNat 0x20AC]], []) := by decide
+
 end SV.Consistency
